@@ -388,6 +388,27 @@ TOPO_UNITS = [
         doc="T: the cpuset handed to hwloc_set_cpubind contains OS PU x iff the logical PU with os_index x is in the pika mask"),
 ]
 
+# ---- scheduled_thread_pool::thread_func binding prologue (added by main after seeded change C15-4 was missed) ----
+STP_IMPL = "libs/pika/thread_pools/include/pika/thread_pools/scheduled_thread_pool_impl.hpp"
+TFUNC_UNITS = [
+    Unit("pool.thread_func.bind", "tfunc.c", enforce="thread_func_bind", lifts={
+        "body": Lift(STP_IMPL, r"void\s+pika::threads::detail::scheduled_thread_pool<Scheduler>::thread_func\(",
+                     fragment_end=r"if \(get_scheduler\(\)->has_scheduler_mode\(", rules=[
+            Sub(r"\A.*?std::shared_ptr<pika::concurrency::detail::barrier> startup\)\s*\{", "{", 1),
+            Sub(r"if \(get_scheduler\(\)->has_scheduler_mode\(\Z", "}", 1),
+            Sub(r"\btopology const& (\w+) = get_topology\(\);", r"struct topology const *\1 = get_topology();", 1),
+            Sub(r"(?:threads::detail::)?mask_type (\w+) = affinity_data_\.get_pu_mask\(", r"struct pmask \1 = get_pu_mask(&self->affinity_data_, ", 1),
+            Sub(r"\bany\((\w+)\)", r"mask_any(&\1)", None),
+            Sub(r"\btopo\.(get_machine_affinity_mask|write_to_log)\(\)", r"topo_\1(topo)", None),
+            Sub(r"\bif \(PIKA_LOG_ENABLED\(debug\)\)", "if (nondet_bool())", None),
+            Sub(r"\berror_code (\w+)\(throwmode::lightweight\);", r"struct error_code \1 = error_code_make(throwmode_lightweight);", 1),
+            Sub(r"\btopo\.set_thread_affinity_mask\((\w+), (\w+)\);", r"topo_set_thread_affinity_mask(topo, &\1, &\2);", None),
+            Sub(r"\bif \(ec\)", "if (ec.value)", None),
+        ])},
+        funcs=[STP_IMPL + ": scheduled_thread_pool<Scheduler>::thread_func (binding prologue, up to the thread-priority step)"], min_obligations=5,
+        doc="F: the worker's OS thread binds itself once, with the mask of its GLOBAL worker number (machine mask if that is empty)"),
+]
+
 NONE_UNITS = [
     Unit("none.init_branch", "none.c", defines=["U_NONE_BRANCH"], enforce="init_none_branch", lifts=NONE_LIFTS,
          funcs=[AD + ": affinity_data::init (the `none` branch)", AD_HPP + ": affinity_data::get_pu_num(num_thread)"], min_obligations=10),
@@ -443,7 +464,7 @@ UNITS = [
          lifts={"dist_enum": Lift(PAO_HPP, r"enum distribution_type", fragment_end=r"\};", rules=[]),
                 "body": Lift(PAO, r"void decode_distribution\(", rules=[Call(r"\baffinities\.resize", "maskvec_resize(affinities, {0})", None)])},
          funcs=[PAO + ": decode_distribution"], min_obligations=10),
-] + NONE_UNITS + INIT_UNITS + TOPO_UNITS + [
+] + NONE_UNITS + INIT_UNITS + TOPO_UNITS + TFUNC_UNITS + [
     Unit("pu_in_process_mask", "decoders.c", defines=["U_PIM"], enforce="pu_in_process_mask", lifts=dict(HELPERS),
          funcs=[PAO + ": pu_in_process_mask"], min_obligations=3),
     Unit("check_num_threads", "decoders.c", defines=["U_CNT"], enforce="check_num_threads", lifts=dict(HELPERS),
@@ -535,3 +556,18 @@ META = {
         "--pika:process-mask parsing, affinity_data::init outside its `none` branch, get_pu_num(i, hc) for pu_offset/pu_step other than 0/1",
     ],
 }
+
+# ---- C19 units reused (added by main with pool.thread_func.bind): which GLOBAL worker number a pool's OS thread is started with.
+# ---- run() calls add_processing_unit_internal(core, thread_offset_ + core, ...) for every core; the std::thread runs
+# ---- thread_func(core, that global number).  Same templates and contracts as in specs/C19, run here as part of C15 as well.
+_c19 = {}
+exec(compile(open("/verif/specs/C19/spec.py").read(), "/verif/specs/C19/spec.py", "exec"), _c19)
+for _u in _c19["UNITS"]:
+    if _u.name in ("more.add_pu_internal", "more.pool_run_startup"):
+        _u.name = "c19." + _u.name
+        _u.template = "../C19/" + _u.template
+        UNITS.append(_u)
+META["trusted_base"] = list(META.get("trusted_base", [])) + [
+    "units c19.* are the C19 units of the same name (specs/C19/more.c, more_state.h) with their trusted base",
+    "specs/C15/tfunc.c: affinity_data::get_pu_mask / topology::get_machine_affinity_mask / set_thread_affinity_mask as recording stubs "
+    "(their own contracts: none.get_pu_mask, topo.set_thread_affinity_mask); error_code as an int; PIKA_LOG_ENABLED arbitrary"]
